@@ -408,7 +408,8 @@ func relations(w *W, c *gen.Case, k int, h []byte, re *coregex.Regex, eng *meta.
 	}
 	// R12
 	rel("R12 Count", C(func() string { return strconv.Itoa(re.Count(h, -1)) }), strconv.Itoa(len(all)))
-	rel("R12 CountString", C(func() string { return strconv.Itoa(re.CountString(s, 0)) }), strconv.Itoa(len(all)))
+	rel("R12 CountString", C(func() string { return strconv.Itoa(re.CountString(s, -3)) }), strconv.Itoa(len(all)))
+	rel("R12 Count(0)", C(func() string { return strconv.Itoa(re.Count(h, 0)) }), "0")
 	rel("R12 Count(2)", C(func() string { return strconv.Itoa(re.Count(h, 2)) }), strconv.Itoa(min(2, len(all))))
 	// R13
 	rel("R13 AllIndex", C(func() string {
